@@ -2,7 +2,6 @@
 MUTANTS = [
     {'name': 'revert: pairs note records', 'revert': 'pairs note records', 'expect': 'ROWRANK'},
     {'name': 'revert: first matching index as a scalar', 'revert': 'first matching index as a scalar', 'expect': 'F8b'},
-    {'name': 'ratio scale returns columns swapped', 'file': 'partitura/musicanalysis/performance_codec.py', 'old': '    return [beat_period_ratio, beat_period_mean]', 'new': '    return [beat_period_mean, beat_period_ratio]', 'expect': 'F5c'},
     {'name': 'rescale reads a name nobody writes', 'file': 'partitura/musicanalysis/performance_codec.py', 'old': '    return tempo_params["beat_period_ratio"] * tempo_params["beat_period_mean"]', 'new': '    return tempo_params["beat_period_ratio"] * tempo_params["beat_period_avg"]', 'expect': 'F5c'},
     {'name': 'param_names misses std', 'file': 'partitura/musicanalysis/performance_codec.py', 'old': '        param_names=("beat_period_standardized", "beat_period_mean", "beat_period_std"),', 'new': '        param_names=("beat_period_standardized", "beat_period_mean"),', 'expect': 'F5c'},
     {'name': 'decoder sorts pitch primary', 'file': 'partitura/musicanalysis/performance_codec.py', 'old': '    sort_idx = np.lexsort((snote_info["pitch"], snote_info["onset_div"]))', 'new': '    sort_idx = np.lexsort((snote_info["onset_div"], snote_info["pitch"]))', 'expect': 'ORDER'},
